@@ -535,7 +535,7 @@ func waitFor(cond func() bool, d time.Duration) bool {
 func main() {
 	run = vlib.Start("C09")
 	rogger.SetLevel(rogger.OFF)
-	run.SetRule("scenarios = fault {refuse, blackhole, accept-then-silence, read-then-silence, reply after 0.5/0.9/1.1/3 x deadline, close before read / after read / reset / mid-response, garbage (random, illegal length, undecodable body, foreign id), never-read with 1 MiB requests and queue length 1} x deadline source {proxy timeout, per-call client timeout, context deadline} x deadline {100,300,600 ms} x callers {1,8} (thorough: 64), two-way and one-way; each followed by counter comparison and a 20-call control batch on the healed peer. Endpoint-manager histories: an endpoint taken out of rotation comes back slow, 2..3 probe calls overlap and are all answered, then ordinary calls on the proxy and a sibling (probes.go). A case is one call; distinct = distinct (fault, source, deadline, callers, outcome mix).")
+	run.SetRule("scenarios = fault {refuse, blackhole, accept-then-silence, read-then-silence, reply after 0.5/0.9/1.1/3 x deadline, close before read / after read / reset / mid-response, garbage (random, illegal length, undecodable body, foreign id), never-read with 1 MiB requests and queue length 1} x deadline source {proxy timeout, per-call client timeout, context deadline} x deadline {100,300,600 ms} x callers {1,8} (thorough: 64), two-way and one-way; each followed by counter comparison and a 20-call control batch on the healed peer. Endpoint-manager histories: an endpoint taken out of rotation comes back slow, 2..3 probe calls overlap and are all answered, then ordinary calls on the proxy and a sibling; timers of the send-queue / reply waits asked for 0..46 idle ticks after the previous expiry of their wheel (probes.go). A case is one call; distinct = distinct (fault, source, deadline, callers, outcome mix).")
 	run.Assume("slack 2 s; connection-establishment bound = ClientDialTimeout; an overrun counts only when three isolated replays of the same scenario exceed the bound too")
 	faults := []string{"refuse", "blackhole", "accept-then-silence", "read-then-silence", "late-0.5", "late-0.9", "late-1.1", "late-3", "close-before-read", "close-after-read", "reset-after-read", "close-mid-response",
 		"garbage-random", "garbage-illegal-length", "garbage-undecodable-body", "foreign-id", "never-read"}
@@ -640,6 +640,13 @@ func main() {
 			defer wg.Done()
 			overlappingProbesScenario(9000+k, pr[0], pr[1], pr[2])
 		}(k, pr)
+	}
+	for _, d := range []time.Duration{140 * time.Millisecond, 220 * time.Millisecond} {
+		wg.Add(1)
+		go func(d time.Duration) {
+			defer wg.Done()
+			timerHistoryScenario(d)
+		}(d)
 	}
 	wg.Wait()
 	run.Set("scenarios", len(scs))
